@@ -22,8 +22,8 @@
 (*               missing -> "<no subject>"; RFC 2047 encoded words are NOT decoded, nothing  *)
 (*               is truncated                                                               *)
 (*   Serve       MessageHandler.write = message.as_bytes(): headers re-emitted as           *)
-(*               "Name: value" LF, one blank line, body lines with LF; the From_ line is     *)
-(*               not part of the message                                                    *)
+(*               "Name: value" LF (lines over 78 columns folded again), one blank line,      *)
+(*               body lines with LF; the From_ line is not part of the message               *)
 (*   NumOutcome  MessageHandler.canhandlerequest / getmessage: arguments ^<flag>(\d+)$,     *)
 (*               number < 1 declined, n-th message of the iteration or "no such message"    *)
 (*   FromLineOk  MBoxFolderHandler.canhandlerequest: the UnixMailbox pattern, token by token *)
@@ -53,9 +53,9 @@
 (*   NamedBySubject     the item is named by the message's Subject, white space runs (folded *)
 (*                      headers, TAB, CR, LF) shown as one blank, "<no subject>" without one *)
 (*   RetrieveNth        following the k-th item returns the k-th message: header and body    *)
-(*                      of that message and of no other, complete, as text/plain (equal up   *)
-(*                      to Canon: line terminators, "Name: value" spacing, mboxo quoting,    *)
-(*                      trailing blank lines)                                               *)
+(*                      of that message and of no other, complete (equal up to Canon: header *)
+(*                      folding and white space, line terminators, mboxo quoting, trailing   *)
+(*                      blank lines)                                                        *)
 (*   ListingMatchesRetrieval  the name of an item is the Subject of what its selector        *)
 (*                      retrieves; Gopher+ "!" on the item reports the same item              *)
 (*   NoSuchMessage      0, negative, non-numeric, empty, out-of-range and huge numbers and a  *)
